@@ -5,7 +5,7 @@ from collections import Counter
 from .. import coqenc as E
 from ..passes import Case, run_passes
 from ..runner import jval
-from ..valgen import Gen, copy_value
+from ..valgen import Gen, copy_value, share_equal
 from ..condgen import CondGen
 from ..pathgen import PathGen
 from ..specgen import SpecGen, normalise_cond
@@ -33,7 +33,9 @@ def probes(g, t):
 
 
 def make_case(g, t, spec):
-    outcome = E.run_outcome(lambda: impl_from_spec(copy.deepcopy(spec)))
+    aliased = g.r.random() < 0.5     # equal sub-specs as ONE object (YAML aliases, a caller reusing a sub-spec)
+    given = (lambda: share_equal(copy.deepcopy(spec))) if aliased else (lambda: copy.deepcopy(spec))
+    outcome = E.run_outcome(lambda: impl_from_spec(given()))
     try:
         sc = E.enc_val(spec)
         impl = E.enc_res(outcome, Inert0())
@@ -71,7 +73,7 @@ def make_case(g, t, spec):
         v = valida()
         try:
             dsl = t.build()
-            parsed = v.conditions.ConditionLike.from_spec(copy.deepcopy(spec))
+            parsed = v.conditions.ConditionLike.from_spec(given())
             if not (parsed == dsl):
                 direct = dict(descr, kind="direct", what="from_spec(spec) is not equal to the DSL-built condition")
             else:
@@ -139,6 +141,14 @@ def run(tier, seed, model_ok, spec_ok, replay=None):
                 m = {k: g.r.choice([1, "x", "/tmp", ["a"], None, True]) for k in keys}
                 kk = g.r.random()
                 l.args[0] = [m, g.scalar()] if l.method in ("in_", "not_in") or kk < 0.4 else ({"k": m, "j": 1} if kk < 0.7 else m)
+        if g.r.random() < 0.05:
+            # an operand listed twice (in a spec: possibly the very same object, as a YAML alias gives) whose list / mapping argument
+            # holds a literal mapping that has to be written escaped
+            m = {g.r.choice(["path", "my_path", "path.len", "\\path"]): g.r.choice([["a"], 1, "x"]), "n": 1}
+            lf = Leaf("Value", g.r.choice(["in_", "not_in", "equal_to"]), [[m, g.scalar()] if g.r.random() < 0.6 else {"k": m, "j": 2}])
+            t = Bin(g.r.choice(["and", "or", "xor"]), lf, copy.deepcopy(lf))
+            if g.r.random() < 0.4:
+                t = Bin(g.r.choice(["and", "or"]), t, cg.leaf(doc, wrong_arity=0.0))
         long_list = None
         if g.r.random() < 0.07:
             # a LONG and / or / xor list (4-7 operands): the list means the left-to-right chain  c1 op c2 op ... op cn
